@@ -248,8 +248,25 @@ def rule_e3(F):
         if kind not in ("Expr::Assign", "Expr::CompoundAssign"):
             continue
         ok = False
+        # the test may be made by a helper of the type checker that hands back the target (`let target = self.assignment_target(..)?`)
+        scopes = [arm["body"]]
+        for c_ in list(hir.nodes(arm["body"], "mcall")) + list(hir.nodes(arm["body"], "call")):
+            d_ = hir.call_def(c_) or ""
+            hb_ = F.body(d_) if d_.startswith("typechecker::") and F.has(d_) else None
+            if hb_ is not None and hb_.hir and hir.last(d_) not in ("expr", "resolve_expression_path", "block") and any(
+                    (hir.res_def(n) or "").endswith("ValueKind::Local") for n in hir.walk(hb_.hir["value"]) if n.get("k") in ("path", "ppath")):
+                scopes.append(hb_.hir["value"])
+        for sc_ in scopes:
+            for m in hir.nodes(sc_, "match"):
+                # `Value(t) if t.kind == ValueKind::Local => Ok(t), _ => Err(..)`
+                for a in m["arms"]:
+                    g = a.get("guard")
+                    if g is not None and any((hir.res_def(n) or "").endswith("ValueKind::Local") for n in hir.walk(g) if n.get("k") in ("path", "ppath")):
+                        rest = [x for x in m["arms"] if x is not a]
+                        if rest and all(hir.diverges(x["body"]) or "Err" in str(hir.result_desc(x["body"])) for x in rest):
+                            ok = True
         # a comparison / pattern on `.kind` against ValueKind::Local whose failing side returns Err
-        for iff in hir.nodes(arm["body"], "if"):
+        for iff in [i_ for sc_ in scopes for i_ in hir.nodes(sc_, "if")]:
             c = iff["cond"]
             kinds = [n for n in hir.nodes(c, "field") if n.get("n") == "kind"]
             mentions_local = any((hir.res_def(n) or "").endswith("ValueKind::Local") for n in hir.walk(c) if n.get("k") in ("path", "ppath"))
@@ -260,7 +277,7 @@ def rule_e3(F):
                     branch = iff.get("else") or iff["then"]
                 if branch is not None and hir.diverges(branch) and any("Err" in str(hir.result_desc(x.get("e"))) for x in hir.nodes(branch, "ret")):
                     ok = True
-        for m in list(hir.nodes(arm["body"], "match")) + list(hir.nodes(arm["body"], "letstmt")):
+        for m in [x_ for sc_ in scopes for x_ in list(hir.nodes(sc_, "match")) + list(hir.nodes(sc_, "letstmt"))]:
             pats = [a["pat"] for a in m["arms"]] if m.get("k") == "match" else [m["pat"]]
             if any("ValueKind::Local" in hir.pat_desc(p) for p in pats):
                 if m.get("k") == "letstmt" and m.get("els") and hir.diverges(m["els"]):
@@ -784,6 +801,18 @@ def rule_e12(F):
     return r
 
 
+def rule_e13(F):
+    """Typing rules that single out a built-in type (`?` needs a function returning Option, the verdict of a filtermap, the element
+    type of a list ..) identify it by its RESOLVED name - scope and identifier.  A script may declare `enum Option[T]` or `record
+    Option` of its own; a test on the bare identifier then treats that type as the built-in (a `?` in a function returning it
+    compiles).  Crate-wide search (everything but the signature gate, which C04.G12 covers): no comparison looks at `.ident` of a
+    resolved name alone."""
+    from . import c04
+    r = RuleResult("C07.E13", "typing rules identify built-in types by resolved name (scope + identifier), never by the bare identifier", floor=1)
+    files = sorted({b.file for b in F.all_bodies() if b.file and "/src/" in "/" + b.file and not b.file.endswith("codegen/check.rs") and "tests" not in b.file})
+    return c04._g12(F, r, files, consequence="is taken for the built-in by a typing rule: an ill-typed script (`?` in a function that does not return an optional value) compiles")
+
+
 def rules(ctx):
     F = ctx["F"]
-    return [rule_e1(F), rule_e2(F), rule_e3(F), rule_e4(F), rule_e5(F), rule_e6(F), rule_e7(F), rule_e8(F), rule_e9(F), rule_e10(F), rule_e11(F), rule_e12(F)]
+    return [rule_e1(F), rule_e2(F), rule_e3(F), rule_e4(F), rule_e5(F), rule_e6(F), rule_e7(F), rule_e8(F), rule_e9(F), rule_e10(F), rule_e11(F), rule_e12(F), rule_e13(F)]
